@@ -583,7 +583,7 @@ def main():
     phase["proofs+build"] = round(time.time() - t0, 1)
     t0 = time.time()
     quick = c.tier == "quick"
-    nprog = 48 if quick else 400
+    nprog = 48 if quick else 220
     rng = c.rng
     # corpus first
     jobs = []
@@ -593,7 +593,7 @@ def main():
             if f.endswith(".json"):
                 jobs.append(json.load(open(os.path.join(corpus_dir, f))))
     jobs += [gen_program(rng, i, dynamic=(i % 3 == 0), cond=(i % 4 == 1 or i % 12 == 6)) for i in range(nprog)]
-    nprune = 14 if quick else 120
+    nprune = 14 if quick else 70
     jobs += [gen_prune_program(rng, i, dynamic=(i % 5 == 4)) for i in range(nprune)]
     for j in jobs:
         j.setdefault("npos", 50 if quick else 200)
